@@ -1,1 +1,722 @@
+//! refdns — an independent, minimal RFC 1035 reader/writer used only as an oracle and by the
+//! simulated raw peers. It shares no code with simple-dns.
+//!
+//! * `decode` walks a message: header, names (with compression pointers), RR envelopes, and —
+//!   through a per-type schema of where domain names sit inside RDATA — produces a canonical
+//!   (uncompressed) RDATA for comparison, plus a list of every name occurrence with its
+//!   position, in-place labels and pointer, for the pointer-validity oracle.
+//! * `encode` writes abstract records (`Rec`) without or with name compression.
 
+use serde::{Deserialize, Serialize};
+use std::collections::HashMap;
+
+pub mod t {
+    pub const A: u16 = 1;
+    pub const NS: u16 = 2;
+    pub const MD: u16 = 3;
+    pub const MF: u16 = 4;
+    pub const CNAME: u16 = 5;
+    pub const SOA: u16 = 6;
+    pub const MB: u16 = 7;
+    pub const MG: u16 = 8;
+    pub const MR: u16 = 9;
+    pub const NULL: u16 = 10;
+    pub const WKS: u16 = 11;
+    pub const PTR: u16 = 12;
+    pub const HINFO: u16 = 13;
+    pub const MINFO: u16 = 14;
+    pub const MX: u16 = 15;
+    pub const TXT: u16 = 16;
+    pub const RP: u16 = 17;
+    pub const AFSDB: u16 = 18;
+    pub const X25: u16 = 19;
+    pub const ISDN: u16 = 20;
+    pub const RT: u16 = 21;
+    pub const NSAP: u16 = 22;
+    pub const NSAP_PTR: u16 = 23;
+    pub const AAAA: u16 = 28;
+    pub const LOC: u16 = 29;
+    pub const SRV: u16 = 33;
+    pub const NAPTR: u16 = 35;
+    pub const KX: u16 = 36;
+    pub const CERT: u16 = 37;
+    pub const OPT: u16 = 41;
+    pub const DS: u16 = 43;
+    pub const IPSECKEY: u16 = 45;
+    pub const RRSIG: u16 = 46;
+    pub const NSEC: u16 = 47;
+    pub const DNSKEY: u16 = 48;
+    pub const DHCID: u16 = 49;
+    pub const ZONEMD: u16 = 63;
+    pub const SVCB: u16 = 64;
+    pub const HTTPS: u16 = 65;
+    pub const EUI48: u16 = 108;
+    pub const EUI64: u16 = 109;
+    pub const IXFR: u16 = 251;
+    pub const AXFR: u16 = 252;
+    pub const MAILB: u16 = 253;
+    pub const MAILA: u16 = 254;
+    pub const ANY: u16 = 255;
+    pub const CAA: u16 = 257;
+}
+
+pub type Labels = Vec<Vec<u8>>;
+
+pub fn name_from_str(s: &str) -> Labels {
+    s.split('.').filter(|l| !l.is_empty()).map(|l| l.as_bytes().to_vec()).collect()
+}
+
+pub fn name_to_string(n: &Labels) -> String {
+    if n.is_empty() {
+        return ".".into();
+    }
+    let mut out = String::new();
+    for (i, l) in n.iter().enumerate() {
+        if i > 0 {
+            out.push('.');
+        }
+        for &b in l {
+            if b.is_ascii_graphic() && b != b'.' && b != b'\\' {
+                out.push(b as char);
+            } else {
+                out.push_str(&format!("\\{:03}", b));
+            }
+        }
+    }
+    out
+}
+
+pub fn name_wire_len(n: &Labels) -> usize {
+    n.iter().map(|l| l.len() + 1).sum::<usize>() + 1
+}
+
+/// `sub` is `dom` or a label-wise subdomain of it (byte-exact labels).
+pub fn is_subdomain_or_equal(sub: &Labels, dom: &Labels) -> bool {
+    sub.len() >= dom.len() && sub[sub.len() - dom.len()..] == dom[..]
+}
+
+pub fn is_strict_subdomain(sub: &Labels, dom: &Labels) -> bool {
+    sub.len() > dom.len() && sub[sub.len() - dom.len()..] == dom[..]
+}
+
+/// May a domain name at this position be compressed?
+#[derive(Clone, Copy, Debug, PartialEq, Eq, Hash, Serialize, Deserialize)]
+pub enum Comp {
+    /// question name, owner name, RFC 1035 RDATA name: a repeat must be a pointer
+    Must,
+    /// later types whose specs are silent/lenient: either way, but pointers must be valid
+    May,
+    /// the type's specification forbids compression
+    Never,
+}
+
+#[derive(Clone, Copy, Debug, PartialEq, Eq)]
+pub enum Item {
+    Skip(usize),
+    Name(Comp),
+    Str,
+    Rest,
+    /// IPSECKEY: precedence, gateway type, algorithm, then gateway by type
+    IpsecGw,
+}
+
+/// Where domain names sit inside the RDATA of each type.
+pub fn schema(rtype: u16) -> &'static [Item] {
+    use Comp::*;
+    use Item::*;
+    match rtype {
+        t::NS | t::MD | t::MF | t::CNAME | t::MB | t::MG | t::MR | t::PTR => &[Name(Must)],
+        t::NSAP_PTR => &[Name(May)],
+        t::SOA => &[Name(Must), Name(Must), Skip(20)],
+        t::MINFO => &[Name(Must), Name(Must)],
+        t::MX => &[Skip(2), Name(Must)],
+        t::RP => &[Name(May), Name(May)],
+        t::AFSDB => &[Skip(2), Name(May)],
+        t::RT => &[Skip(2), Name(May)],
+        t::SRV => &[Skip(6), Name(Never)],
+        t::NAPTR => &[Skip(4), Str, Str, Str, Name(Never)],
+        t::KX => &[Skip(2), Name(Never)],
+        t::RRSIG => &[Skip(18), Name(Never), Rest],
+        t::NSEC => &[Name(Never), Rest],
+        t::SVCB | t::HTTPS => &[Skip(2), Name(Never), Rest],
+        t::IPSECKEY => &[IpsecGw, Rest],
+        _ => &[Rest],
+    }
+}
+
+// ------------------------------------------------------------------ abstract records
+
+#[derive(Clone, Debug, PartialEq, Eq, Hash, Serialize, Deserialize)]
+pub enum F {
+    U8(u8),
+    U16(u16),
+    U32(u32),
+    U64(u64),
+    U128(u128),
+    Name(Labels, Comp),
+    Str(Vec<u8>),
+    Bytes(Vec<u8>),
+}
+
+#[derive(Clone, Debug, PartialEq, Eq, Hash, Serialize, Deserialize)]
+pub struct Rec {
+    pub owner: Labels,
+    pub rtype: u16,
+    pub class: u16,
+    pub cache_flush: bool,
+    pub ttl: u32,
+    pub fields: Vec<F>,
+}
+
+impl Rec {
+    pub fn rdata_canon(&self) -> Vec<u8> {
+        let mut out = Vec::new();
+        for f in &self.fields {
+            enc_field_plain(&mut out, f);
+        }
+        out
+    }
+    /// identity used by stores: (owner, class, type, canonical rdata)
+    pub fn key(&self) -> RecKey {
+        RecKey {
+            owner: self.owner.clone(),
+            class: self.class,
+            rtype: self.rtype,
+            rdata: self.rdata_canon(),
+        }
+    }
+    /// names inside the RDATA, in order
+    pub fn rdata_names(&self) -> Vec<(&Labels, Comp)> {
+        self.fields
+            .iter()
+            .filter_map(|f| match f {
+                F::Name(n, c) => Some((n, *c)),
+                _ => None,
+            })
+            .collect()
+    }
+}
+
+#[derive(Clone, Debug, PartialEq, Eq, Hash, PartialOrd, Ord, Serialize, Deserialize)]
+pub struct RecKey {
+    pub owner: Labels,
+    pub class: u16,
+    pub rtype: u16,
+    pub rdata: Vec<u8>,
+}
+
+#[derive(Clone, Debug, PartialEq, Eq, Hash, Serialize, Deserialize)]
+pub struct Q {
+    pub name: Labels,
+    pub qtype: u16,
+    pub qclass: u16,
+    pub unicast: bool,
+}
+
+#[derive(Clone, Debug, Default, PartialEq, Eq, Serialize, Deserialize)]
+pub struct MsgSpec {
+    pub id: u16,
+    pub flags: u16,
+    pub questions: Vec<Q>,
+    pub answers: Vec<Rec>,
+    pub authority: Vec<Rec>,
+    pub additional: Vec<Rec>,
+}
+
+fn enc_name_plain(out: &mut Vec<u8>, n: &Labels) {
+    for l in n {
+        out.push(l.len() as u8);
+        out.extend_from_slice(l);
+    }
+    out.push(0);
+}
+
+fn enc_field_plain(out: &mut Vec<u8>, f: &F) {
+    match f {
+        F::U8(v) => out.push(*v),
+        F::U16(v) => out.extend_from_slice(&v.to_be_bytes()),
+        F::U32(v) => out.extend_from_slice(&v.to_be_bytes()),
+        F::U64(v) => out.extend_from_slice(&v.to_be_bytes()),
+        F::U128(v) => out.extend_from_slice(&v.to_be_bytes()),
+        F::Name(n, _) => enc_name_plain(out, n),
+        F::Str(s) => {
+            out.push(s.len() as u8);
+            out.extend_from_slice(s);
+        }
+        F::Bytes(b) => out.extend_from_slice(b),
+    }
+}
+
+struct Enc {
+    out: Vec<u8>,
+    table: HashMap<Vec<Vec<u8>>, usize>,
+    compress: bool,
+}
+
+impl Enc {
+    fn name(&mut self, n: &Labels, comp: Comp) {
+        if !self.compress || comp == Comp::Never {
+            enc_name_plain(&mut self.out, n);
+            return;
+        }
+        for i in 0..n.len() {
+            let suffix: Vec<Vec<u8>> = n[i..].to_vec();
+            if let Some(&p) = self.table.get(&suffix) {
+                self.out.extend_from_slice(&((p as u16) | 0xC000).to_be_bytes());
+                return;
+            }
+            if self.out.len() <= 0x3FFF {
+                self.table.insert(suffix, self.out.len());
+            }
+            self.out.push(n[i].len() as u8);
+            self.out.extend_from_slice(&n[i]);
+        }
+        self.out.push(0);
+    }
+    fn rec(&mut self, r: &Rec) {
+        self.name(&r.owner, Comp::Must);
+        self.out.extend_from_slice(&r.rtype.to_be_bytes());
+        let class = r.class | if r.cache_flush { 0x8000 } else { 0 };
+        self.out.extend_from_slice(&class.to_be_bytes());
+        self.out.extend_from_slice(&r.ttl.to_be_bytes());
+        let lenpos = self.out.len();
+        self.out.extend_from_slice(&[0, 0]);
+        for f in &r.fields {
+            match f {
+                F::Name(n, c) => self.name(n, *c),
+                other => enc_field_plain(&mut self.out, other),
+            }
+        }
+        let l = (self.out.len() - lenpos - 2) as u16;
+        self.out[lenpos..lenpos + 2].copy_from_slice(&l.to_be_bytes());
+    }
+}
+
+pub fn encode(m: &MsgSpec, compress: bool) -> Vec<u8> {
+    let mut e = Enc { out: Vec::new(), table: HashMap::new(), compress };
+    e.out.extend_from_slice(&m.id.to_be_bytes());
+    e.out.extend_from_slice(&m.flags.to_be_bytes());
+    e.out.extend_from_slice(&(m.questions.len() as u16).to_be_bytes());
+    e.out.extend_from_slice(&(m.answers.len() as u16).to_be_bytes());
+    e.out.extend_from_slice(&(m.authority.len() as u16).to_be_bytes());
+    e.out.extend_from_slice(&(m.additional.len() as u16).to_be_bytes());
+    for q in &m.questions {
+        e.name(&q.name, Comp::Must);
+        e.out.extend_from_slice(&q.qtype.to_be_bytes());
+        let c = q.qclass | if q.unicast { 0x8000 } else { 0 };
+        e.out.extend_from_slice(&c.to_be_bytes());
+    }
+    for r in &m.answers {
+        e.rec(r);
+    }
+    for r in &m.authority {
+        e.rec(r);
+    }
+    for r in &m.additional {
+        e.rec(r);
+    }
+    e.out
+}
+
+// ------------------------------------------------------------------ decoder
+
+#[derive(Clone, Debug, PartialEq, Eq)]
+pub enum DecErr {
+    ShortHeader,
+    Truncated(&'static str, usize),
+    BadLabelType(usize),
+    LabelTooLong(usize),
+    NameTooLong(usize),
+    ForwardPointer(usize),
+    PointerLoop(usize),
+    RdataOverrun(usize),
+    Trailing(usize),
+}
+
+#[derive(Clone, Copy, Debug, PartialEq, Eq)]
+pub enum Role {
+    Question,
+    Owner,
+    Rdata,
+}
+
+#[derive(Clone, Debug, PartialEq, Eq)]
+pub struct NameOcc {
+    /// offset of the first byte of this occurrence, relative to the message start
+    pub at: usize,
+    /// bytes occupied in place (labels + terminator or pointer)
+    pub wire_len: usize,
+    pub labels: Labels,
+    /// offsets of the labels written in place (before any pointer)
+    pub inline_starts: Vec<usize>,
+    /// (offset of the pointer, its 14-bit target) if the in-place part ends in a pointer
+    pub pointer: Option<(usize, usize)>,
+    pub comp: Comp,
+    pub role: Role,
+    /// index of the record (0-based over all sections, questions first) this belongs to
+    pub entry: usize,
+    pub rtype: u16,
+}
+
+#[derive(Clone, Debug, PartialEq, Eq)]
+pub struct RR {
+    pub owner: Labels,
+    pub rtype: u16,
+    pub class_raw: u16,
+    pub ttl: u32,
+    pub rdlen: usize,
+    pub rdata_at: usize,
+    pub rdata_raw: Vec<u8>,
+    /// RDATA with embedded names expanded (per `schema`); equals raw when there are none
+    pub rdata_canon: Vec<u8>,
+    /// false when the per-type schema walk did not fit RDLENGTH exactly
+    pub schema_ok: bool,
+}
+
+impl RR {
+    pub fn class(&self) -> u16 {
+        if self.rtype == t::OPT {
+            self.class_raw
+        } else {
+            self.class_raw & 0x7FFF
+        }
+    }
+    pub fn cache_flush(&self) -> bool {
+        self.rtype != t::OPT && self.class_raw & 0x8000 != 0
+    }
+    pub fn key(&self) -> RecKey {
+        RecKey {
+            owner: self.owner.clone(),
+            class: self.class(),
+            rtype: self.rtype,
+            rdata: self.rdata_canon.clone(),
+        }
+    }
+}
+
+#[derive(Clone, Debug, PartialEq, Eq)]
+pub struct Msg {
+    pub id: u16,
+    pub flags: u16,
+    pub counts: [u16; 4],
+    pub questions: Vec<Q>,
+    pub answers: Vec<RR>,
+    pub authority: Vec<RR>,
+    pub additional: Vec<RR>,
+    pub names: Vec<NameOcc>,
+    /// offset just past the last entry
+    pub end: usize,
+}
+
+impl Msg {
+    pub fn is_response(&self) -> bool {
+        self.flags & 0x8000 != 0
+    }
+}
+
+/// Decode one name at `at`. Returns (labels, in-place length, inline label starts, pointer).
+#[allow(clippy::type_complexity)]
+pub fn decode_name(
+    buf: &[u8],
+    at: usize,
+) -> Result<(Labels, usize, Vec<usize>, Option<(usize, usize)>), DecErr> {
+    let mut labels = Vec::new();
+    let mut inline_starts = Vec::new();
+    let mut pos = at;
+    let mut wire_len: Option<usize> = None;
+    let mut first_ptr = None;
+    let mut total = 1usize;
+    let mut jumps = 0;
+    loop {
+        if pos >= buf.len() {
+            return Err(DecErr::Truncated("name", pos));
+        }
+        let b = buf[pos];
+        match b & 0xC0 {
+            0x00 => {
+                if b == 0 {
+                    if wire_len.is_none() {
+                        wire_len = Some(pos + 1 - at);
+                    }
+                    break;
+                }
+                let l = b as usize;
+                if pos + 1 + l > buf.len() {
+                    return Err(DecErr::Truncated("label", pos));
+                }
+                total += l + 1;
+                if total > 255 {
+                    return Err(DecErr::NameTooLong(at));
+                }
+                if wire_len.is_none() {
+                    inline_starts.push(pos);
+                }
+                labels.push(buf[pos + 1..pos + 1 + l].to_vec());
+                pos += 1 + l;
+            }
+            0xC0 => {
+                if pos + 2 > buf.len() {
+                    return Err(DecErr::Truncated("pointer", pos));
+                }
+                let target = (((b & 0x3F) as usize) << 8) | buf[pos + 1] as usize;
+                if wire_len.is_none() {
+                    wire_len = Some(pos + 2 - at);
+                    first_ptr = Some((pos, target));
+                }
+                if target >= pos {
+                    return Err(DecErr::ForwardPointer(pos));
+                }
+                jumps += 1;
+                if jumps > 127 {
+                    return Err(DecErr::PointerLoop(pos));
+                }
+                pos = target;
+            }
+            _ => return Err(DecErr::BadLabelType(pos)),
+        }
+    }
+    Ok((labels, wire_len.unwrap(), inline_starts, first_ptr))
+}
+
+fn rd_u16(buf: &[u8], at: usize) -> u16 {
+    u16::from_be_bytes([buf[at], buf[at + 1]])
+}
+
+/// Walk the RDATA according to the type's schema. Returns the canonical RDATA and the name
+/// occurrences, or None if the schema does not fit RDLENGTH exactly.
+fn walk_rdata(
+    buf: &[u8],
+    start: usize,
+    end: usize,
+    rtype: u16,
+    entry: usize,
+) -> Option<(Vec<u8>, Vec<NameOcc>)> {
+    let mut pos = start;
+    let mut canon = Vec::new();
+    let mut occs = Vec::new();
+    let mut take_name = |pos: &mut usize, canon: &mut Vec<u8>, comp: Comp| -> Option<()> {
+        let (labels, wl, starts, ptr) = decode_name(&buf[..], *pos).ok()?;
+        if *pos + wl > end {
+            return None;
+        }
+        enc_name_plain(canon, &labels);
+        occs.push(NameOcc {
+            at: *pos,
+            wire_len: wl,
+            labels,
+            inline_starts: starts,
+            pointer: ptr,
+            comp,
+            role: Role::Rdata,
+            entry,
+            rtype,
+        });
+        *pos += wl;
+        Some(())
+    };
+    for item in schema(rtype) {
+        match *item {
+            Item::Skip(n) => {
+                if pos + n > end {
+                    return None;
+                }
+                canon.extend_from_slice(&buf[pos..pos + n]);
+                pos += n;
+            }
+            Item::Str => {
+                if pos >= end {
+                    return None;
+                }
+                let l = buf[pos] as usize;
+                if pos + 1 + l > end {
+                    return None;
+                }
+                canon.extend_from_slice(&buf[pos..pos + 1 + l]);
+                pos += 1 + l;
+            }
+            Item::Name(c) => take_name(&mut pos, &mut canon, c)?,
+            Item::IpsecGw => {
+                if pos + 3 > end {
+                    return None;
+                }
+                let gw = buf[pos + 1];
+                canon.extend_from_slice(&buf[pos..pos + 3]);
+                pos += 3;
+                match gw {
+                    0 => {}
+                    1 => {
+                        if pos + 4 > end {
+                            return None;
+                        }
+                        canon.extend_from_slice(&buf[pos..pos + 4]);
+                        pos += 4;
+                    }
+                    2 => {
+                        if pos + 16 > end {
+                            return None;
+                        }
+                        canon.extend_from_slice(&buf[pos..pos + 16]);
+                        pos += 16;
+                    }
+                    3 => take_name(&mut pos, &mut canon, Comp::Never)?,
+                    _ => return None,
+                }
+            }
+            Item::Rest => {
+                canon.extend_from_slice(&buf[pos..end]);
+                pos = end;
+            }
+        }
+    }
+    if pos != end {
+        return None;
+    }
+    Some((canon, occs))
+}
+
+/// Decode a whole message. `strict_trailing`: bytes after the last entry are an error.
+pub fn decode(buf: &[u8], strict_trailing: bool) -> Result<Msg, DecErr> {
+    if buf.len() < 12 {
+        return Err(DecErr::ShortHeader);
+    }
+    let id = rd_u16(buf, 0);
+    let flags = rd_u16(buf, 2);
+    let counts = [rd_u16(buf, 4), rd_u16(buf, 6), rd_u16(buf, 8), rd_u16(buf, 10)];
+    let mut pos = 12;
+    let mut names = Vec::new();
+    let mut questions = Vec::new();
+    let mut entry = 0usize;
+    for _ in 0..counts[0] {
+        let (labels, wl, starts, ptr) = decode_name(buf, pos)?;
+        names.push(NameOcc {
+            at: pos,
+            wire_len: wl,
+            labels: labels.clone(),
+            inline_starts: starts,
+            pointer: ptr,
+            comp: Comp::Must,
+            role: Role::Question,
+            entry,
+            rtype: 0,
+        });
+        pos += wl;
+        if pos + 4 > buf.len() {
+            return Err(DecErr::Truncated("question", pos));
+        }
+        let qtype = rd_u16(buf, pos);
+        let qc = rd_u16(buf, pos + 2);
+        pos += 4;
+        questions.push(Q { name: labels, qtype, qclass: qc & 0x7FFF, unicast: qc & 0x8000 != 0 });
+        entry += 1;
+    }
+    let mut sections: [Vec<RR>; 3] = [Vec::new(), Vec::new(), Vec::new()];
+    for (si, sec) in sections.iter_mut().enumerate() {
+        for _ in 0..counts[si + 1] {
+            let (labels, wl, starts, ptr) = decode_name(buf, pos)?;
+            let owner_at = pos;
+            pos += wl;
+            if pos + 10 > buf.len() {
+                return Err(DecErr::Truncated("rr header", pos));
+            }
+            let rtype = rd_u16(buf, pos);
+            let class_raw = rd_u16(buf, pos + 2);
+            let ttl = u32::from_be_bytes([buf[pos + 4], buf[pos + 5], buf[pos + 6], buf[pos + 7]]);
+            let rdlen = rd_u16(buf, pos + 8) as usize;
+            pos += 10;
+            if pos + rdlen > buf.len() {
+                return Err(DecErr::RdataOverrun(pos));
+            }
+            names.push(NameOcc {
+                at: owner_at,
+                wire_len: wl,
+                labels: labels.clone(),
+                inline_starts: starts,
+                pointer: ptr,
+                comp: Comp::Must,
+                role: Role::Owner,
+                entry,
+                rtype,
+            });
+            let raw = buf[pos..pos + rdlen].to_vec();
+            let (canon, ok) = match walk_rdata(buf, pos, pos + rdlen, rtype, entry) {
+                Some((c, occs)) => {
+                    names.extend(occs);
+                    (c, true)
+                }
+                None => (raw.clone(), false),
+            };
+            sec.push(RR {
+                owner: labels,
+                rtype,
+                class_raw,
+                ttl,
+                rdlen,
+                rdata_at: pos,
+                rdata_raw: raw,
+                rdata_canon: canon,
+                schema_ok: ok,
+            });
+            pos += rdlen;
+            entry += 1;
+        }
+    }
+    if strict_trailing && pos != buf.len() {
+        return Err(DecErr::Trailing(pos));
+    }
+    let [answers, authority, additional] = sections;
+    Ok(Msg { id, flags, counts, questions, answers, authority, additional, names, end: pos })
+}
+
+// ------------------------------------------------------------------ small helpers for models
+
+/// Does a record of type `rtype` match the question type (RFC 1035 §3.2.3 semantics for the
+/// cases the statement defines)? Returns None for AXFR/IXFR/MAILA: not defined by C13.
+pub fn qtype_matches(qtype: u16, rtype: u16) -> Option<bool> {
+    match qtype {
+        t::ANY => Some(true),
+        t::AXFR | t::IXFR | t::MAILA => None,
+        t::MAILB => Some(rtype == t::MB || rtype == t::MG || rtype == t::MR),
+        q => Some(q == rtype),
+    }
+}
+
+pub fn qclass_matches(qclass: u16, class: u16) -> bool {
+    qclass == 255 || qclass == class
+}
+
+#[cfg(test)]
+mod tests {
+    use super::*;
+
+    #[test]
+    fn roundtrip_compressed() {
+        let n = name_from_str("a._srv._tcp.local");
+        let m = MsgSpec {
+            id: 7,
+            flags: 0x8400,
+            questions: vec![Q { name: name_from_str("_srv._tcp.local"), qtype: t::PTR, qclass: 1, unicast: true }],
+            answers: vec![
+                Rec { owner: n.clone(), rtype: t::SRV, class: 1, cache_flush: true, ttl: 9, fields: vec![F::U16(0), F::U16(0), F::U16(80), F::Name(n.clone(), Comp::Never)] },
+                Rec { owner: n.clone(), rtype: t::MX, class: 1, cache_flush: false, ttl: 9, fields: vec![F::U16(5), F::Name(n.clone(), Comp::Must)] },
+            ],
+            ..Default::default()
+        };
+        for c in [false, true] {
+            let b = encode(&m, c);
+            let d = decode(&b, true).unwrap();
+            assert_eq!(d.id, 7);
+            assert_eq!(d.questions, m.questions);
+            assert_eq!(d.answers.len(), 2);
+            assert_eq!(d.answers[0].key(), m.answers[0].key());
+            assert_eq!(d.answers[1].key(), m.answers[1].key());
+            assert!(d.answers[0].cache_flush());
+        }
+        let b = encode(&m, true);
+        let d = decode(&b, true).unwrap();
+        // SRV target never compressed, MX exchange is a pure pointer
+        let srv = d.names.iter().find(|o| o.role == Role::Rdata && o.rtype == t::SRV).unwrap();
+        assert!(srv.pointer.is_none());
+        let mx = d.names.iter().find(|o| o.role == Role::Rdata && o.rtype == t::MX).unwrap();
+        assert_eq!(mx.wire_len, 2);
+    }
+}
